@@ -34,7 +34,7 @@ CLAUSES = ["sum-equals-shape", "chunks-positive", "spec-respected", "limit-respe
            "iterate:exactly-once", "generate:contiguous", "pipeline-sum-equals-shape", "pipeline-limit-respected",
            "pipeline-equal-sized", "pipeline-ranges"]
 QUICK = dict(n=5000, time=30)
-THOROUGH = dict(n=160000, time=150, shards=16)
+THOROUGH = dict(n=808080, time=480, shards=16)
 EXHAUSTIVE = False
 
 DTYPES = ["float32", "complex64", "float64", "complex128", "int8"]
